@@ -97,7 +97,7 @@ def run(task):
     idx = task["index"]
     which = ("assemble", "call", "call-pedigree")[idx % 3]
     steps, burn = rnd.choice(CONFIGS)
-    chains = rnd.choice([1, 2, 2, 3, 2, 3])
+    chains = rnd.choice([1, 2, 2, 3, 4, 3])
     theta = rnd.choice(THETAS)
     deep = rnd.random() < 0.5
     bams = [data_path("simple.sample%d%s.bam" % (i, ".deep" if deep else "")) for i in (1, 2, 3)]
@@ -251,7 +251,7 @@ def run_api(task):
                 break
         haplotypes = np.array(sorted(haps), dtype=np.int8)
         K = len(haplotypes)
-        chains = rnd.choice([1, 2, 3])
+        chains = rnd.choice([1, 2, 3, 4])
         steps, burn = rnd.choice([(24, 8), (20, 4), (40, 8), (12, 4)])
         theta = rnd.choice(THETAS)
         th = theta_fraction(theta)
